@@ -49,7 +49,10 @@ How the model reads the tables:
   (`tsCheck`).  The `def …` entries are the definitions of the verdict variables with their FULL
   guard chain (err conditions included).
 * `checksumSum`: per source, `filepath.Rel(t.Dir, f)` → `filepath.ToSlash` → hash, then the
-  content (`nameOf`, `stream`); `fingerOrder_checksumName_ok` pins the arguments.
+  content (`nameOf`, `stream`); `fingerOrder_checksumName_ok` pins the arguments.  Fix F8B: a SECOND
+  hasher gets, per source, the length of the name and the number of content bytes copied, 8 bytes
+  big-endian each (`lenTable`); the checksum is `%x%x` of the first sum followed by `%016x` of the
+  second (`fpNow`); `fingerOrder_checksumFeed_ok` pins what goes to which hasher, in which order.
 * `checksumOnError` removes the file when the task has sources; so does `timestampOnError`
   (patched by TS3) with the marker (`onError`); neither consults `checker.dry`, but in dry mode
   `statusOnError` is unreachable in the model's fragment (prompt guard `!e.Dry`; `runCommand` has
@@ -141,22 +144,45 @@ theorem fingerOrder_checksumSum_ok : FingerOrder.checksumSum = [("Globs", ""),
   ("def ‹0›, ‹1› := Globs(t.Dir, t.Sources)", ""),
   ("xxh3.New", ""),
   ("def ‹2› := xxh3.New()", "!(‹1› != nil)"),
+  ("xxh3.New", ""),
+  ("def ‹3› := xxh3.New()", "!(‹1› != nil)"),
   ("filepath.Rel", "range ‹0›"),
-  ("io.CopyBuffer", "range ‹0›"),
   ("filepath.ToSlash", "range ‹0›"),
+  ("io.CopyBuffer", "range ‹0›"),
   ("os.Open", "range ‹0›"),
   ("io.CopyBuffer", "range ‹0›"),
+  ("binary.BigEndian.PutUint64", "range ‹0›"),
+  ("binary.BigEndian.PutUint64", "range ‹0›"),
+  ("(xxh3.New·1).Write", "range ‹0›"),
   ("(xxh3.New).Sum128", ""),
-  ("def ‹3› := (xxh3.New).Sum128()", "!(‹1› != nil)"),
+  ("def ‹4› := (xxh3.New).Sum128()", "!(‹1› != nil)"),
   ("fmt.Sprintf", ""),
-  ("return fmt.Sprintf(\"%x%x\", ‹3›.Hi, ‹3›.Lo), nil", "")] := by rfl
+  ("(xxh3.New·1).Sum64", ""),
+  ("return fmt.Sprintf(\"%x%x%016x\", ‹4›.Hi, ‹4›.Lo, (xxh3.New·1).Sum64()), nil", "")] := by rfl
 
 /-- what is written into the hash before a file's content: `nameOf` = the slash path relative to
 `t.Dir` (the absolute path itself if `filepath.Rel` fails, which it cannot for a match below
-`t.Dir`).  One fact with shared placeholders: ‹0› the name, ‹2› the source file of the loop -/
+`t.Dir`).  Facts with shared placeholders (also shared with `checksumFeed`): ‹0› the name, ‹2› the
+source file of the loop -/
 theorem fingerOrder_checksumName_ok :
     FingerOrder.checksumName = ["rel: ‹0›, ‹1› := filepath.Rel(t.Dir, ‹2›)", "fallback: ‹0› = ‹2›",
-      "hashed: strings.NewReader(filepath.ToSlash(‹0›))"] := by decide
+      "slash: ‹0› = filepath.ToSlash(‹0›)", "hashed: strings.NewReader(‹0›)"] := by decide
+
+/-- **what is fed to which hasher** (fix F8B; placeholders shared with `checksumName`: ‹0› the name).
+Per source, in this order: the name and then the file ‹7› are copied into ONE hasher ‹4› (`stream`),
+the second copy yielding the byte count ‹6›; the length of the name and that byte count are put, 8
+bytes big-endian each, into the 16-byte array ‹8›, which is written to the SECOND hasher
+(`(xxh3.New·1)`: the second local made by `xxh3.New` — `lenTable`, `be64`); the checksum is `%x%x`
+of the first hasher's 128-bit sum followed by `%016x` of the second's 64-bit sum (`fpNow`).  On a tree
+without the fix the list has three entries (no length record, no second sum): the obligation breaks;
+so it does when the length record is dropped, reordered, or written to the first hasher. -/
+theorem fingerOrder_checksumFeed_ok :
+    FingerOrder.checksumFeed = ["feed: _, ‹3› := io.CopyBuffer(‹4›, strings.NewReader(‹0›), ‹5›)",
+      "feed: ‹6›, ‹1› := io.CopyBuffer(‹4›, ‹7›, ‹5›)",
+      "feed: binary.BigEndian.PutUint64(‹8›[:8], uint64(len(‹0›)))",
+      "feed: binary.BigEndian.PutUint64(‹8›[8:], uint64(‹6›))",
+      "feed: _, _ = (xxh3.New·1).Write(‹8›[:])",
+      "sum: fmt.Sprintf(\"%x%x%016x\", ‹9›.Hi, ‹9›.Lo, (xxh3.New·1).Sum64())"] := by decide
 
 theorem fingerOrder_checksumPath_ok : FingerOrder.checksumPath = [("filepath.Join", ""),
   ("checksumFilename", ""),
